@@ -63,7 +63,10 @@ ServerShapes ==
     absvar   |-> <<[abs |-> TRUE, scheme |-> "https",
                     host |-> <<[v |-> "sub", d |-> "api"], L("example"), L("com")>>,
                     port |-> <<[v |-> "port", d |-> "8443"]>>, base |-> <<"v1">>, slash |-> FALSE]>>,
-    two      |-> <<AbsV1, OtherHost>>]
+    two      |-> <<AbsV1, OtherHost>>,
+    \* one base path is a string prefix of the other (/v1 and /v10)
+    relpfx   |-> <<[abs |-> FALSE, base |-> <<"v1">>, slash |-> FALSE], [abs |-> FALSE, base |-> <<"v10">>, slash |-> FALSE]>>,
+    abspfx   |-> <<AbsV1, [AbsV1 EXCEPT !.base = <<"v10">>]>>]
 (* path-level servers: the document declares https://api.example.com/v1, the path item   *)
 (* of the lowest-ranked ("psfirst") / highest-ranked ("pslast") template declares        *)
 (* http://other.example.com instead                                                      *)
@@ -71,6 +74,7 @@ OverrideKeys == {"psfirst", "pslast"}
 ServerKeys == DOMAIN ServerShapes \cup OverrideKeys
 SrvRank(k) == CASE k = "none" -> 1 [] k = "rel" -> 2 [] k = "relslash" -> 3 [] k = "relroot" -> 4
                 [] k = "abs" -> 5 [] k = "absvar" -> 6 [] k = "two" -> 7 [] k = "psfirst" -> 8 [] k = "pslast" -> 9
+                [] k = "relpfx" -> 10 [] k = "abspfx" -> 11
 
 WithOwn(t) == [segs |-> t.segs, ops |-> t.ops, servers |-> <<OtherHost>>]
 Doc(tm, sk) ==
@@ -127,6 +131,15 @@ Under(s, p) ==
 
 AbsAt(scheme, host, port, p) == [abs |-> TRUE, scheme |-> scheme, host |-> host, port |-> port, path |-> p]
 
+(* paths that continue the server's base path inside its last segment: /v1 -> /v10/<p>,  *)
+(* /v1beta/<p>, /v1x/<p> and the base glued to the first segment of p (/b + /a -> /ba);  *)
+(* segment-wise none of them lies under the base                                         *)
+BaseContinued(base, p) ==
+   IF Len(base) = 0 THEN {}
+   ELSE LET front == SubSeq(base, 1, Len(base) - 1)  last == base[Len(base)] IN
+        {front \o <<last \o sfx>> \o p : sfx \in {"0", "beta", "x"}}
+        \cup {front \o <<last \o p[1]>> \o SubSeq(p, 2, Len(p))}
+
 (* URLs that miss, or hit in another way, the servers of the document *)
 ServerVariants(doc, p) ==
    LET S == ServersOf(doc)  s == S[1] IN
@@ -135,6 +148,7 @@ ServerVariants(doc, p) ==
       {[abs |-> FALSE, path |-> p], [abs |-> FALSE, path |-> <<"v2">> \o p],
        [abs |-> FALSE, path |-> <<"a">> \o p],
        AbsAt("https", <<"api", "example", "com">>, <<>>, s.base \o p)}
+      \cup {[abs |-> FALSE, path |-> q] : q \in BaseContinued(s.base, p)}
    ELSE LET h == [i \in 1..Len(s.host) |-> Dflt(s.host[i])]
             pt == [i \in 1..Len(s.port) |-> Dflt(s.port[i])]
             bp == s.base \o p
@@ -143,6 +157,7 @@ ServerVariants(doc, p) ==
             AbsAt(s.scheme, SubSeq(h, 2, Len(h)), pt, bp),
             AbsAt(s.scheme, h, pt, p), AbsAt(s.scheme, h, pt, <<"v2">> \o p),
             [abs |-> FALSE, path |-> bp]}
+           \cup {AbsAt(s.scheme, h, pt, q) : q \in BaseContinued(s.base, p)}
            \cup (IF Len(s.port) > 0 THEN {AbsAt(s.scheme, h, <<>>, bp), AbsAt(s.scheme, h, <<"9">>, bp)} ELSE {})
            \cup (IF Len(S) > 1
                  THEN {Under(S[2], p), Under(S[2], s.base \o p), AbsAt(S[2].scheme, h, pt, bp),
@@ -167,5 +182,15 @@ Requests(doc) ==
        srv == UNION {{[m |-> t.ops[1].m, u |-> u] : u \in ServerVariants(doc, BaseFill(t))} : t \in T}
    IN {r \in main \cup odd \cup srv : WellFormed(r)}
 
-ReqSeq(doc) == SetToSeq(Requests(doc))
+(* The order the requests of a document are run in (one router instance per chunk of     *)
+(* this sequence): first the main URLs, each with GET and then POST back to back -- so    *)
+(* that a route returned for one method is still held by the caller while the same URL   *)
+(* is routed with another declared method --, then the rest.  An even chunk length keeps *)
+(* the pairs together.                                                                   *)
+ReqSeq(doc) ==
+   LET all == Requests(doc)
+       urls == SetToSeq({r.u : r \in {x \in all : x.m \in MainMethods /\ [x EXCEPT !.m = "GET"] \in all
+                                                  /\ [x EXCEPT !.m = "POST"] \in all}})
+       pairs == [k \in 1..(2 * Len(urls)) |-> [m |-> IF k % 2 = 1 THEN "GET" ELSE "POST", u |-> urls[(k + 1) \div 2]]]
+   IN pairs \o SetToSeq(all \ {pairs[k] : k \in 1..Len(pairs)})
 =============================================================================
